@@ -7,8 +7,9 @@ LEVEL_TEXT = ("Machine-checked proof (Coq): for every reachable store and every 
               "by the reference spec on that prefix, so sequences and versions continue without gap or reuse (C05_recover_prefix, C05_recover_any_cut, C05_continue_gapless, C05_reopen_lossless, C05_history_refines). "
               "Tie to the code: the harness tears the last transaction of real histories at every record boundary and inside records (zero-filling the rest), reopens the real Database, reads through every API and appends again; "
               "compared with the extracted model and the spec.")
-LEVEL_NOTE = ("Trusted: Coq kernel, extraction, OCaml driver, Rust harness (its file tearing). Byte-level cuts reduce to record cuts by seglog's recovery scan (C17: a torn record is detected by length/CRC with "
-              "probability 1-2^-32, not a theorem). Power-loss reordering of un-fsynced pages is not modelled (a process crash keeps written bytes). Sealed-segment index files are C06's subject.")
+LEVEL_NOTE = ("Trusted: Coq kernel, extraction, OCaml driver, Rust harness (its file tearing). Byte-level cuts reduce to record cuts by seglog's recovery scan: proved as C05_byte_cut_is_record_cut_partial / C05_byte_crash_is_record_crash_partial "
+              "under the exact side condition cut_detected (= the torn bytes followed by zeros are not accepted by the decoder), which is proved for the deterministic classes (nothing written, zeroed head, file end, "
+              "lost bytes within a 32-bit burst, zero tail = record intact) and is otherwise a CRC-32 coincidence (C05_byte_cut_unconditional_refuted gives the witness). Power-loss reordering of un-fsynced pages is not modelled (a process crash keeps written bytes). Sealed-segment index files are C06's subject.")
 TECHNIQUE = "Coq proof (invariant preserved by crash+reopen, prefix refinement) of a hand-written Gallina model + crash-state enumeration against the real Database"
 RULE = ("histories with crashes during the last acknowledged-or-not append: only the first k records of the transaction (k = 0..n) plus a torn prefix of the next record survive (rest zero-filled); "
         "then reopen, all read APIs, further appends; non-trivial = >=2 appends, one succeeded")
